@@ -233,6 +233,9 @@ def run(ck, F):
     _c07.scope_keys(ck, F, 'C05')
     import c17 as _c17
     _c17.insertion_order(ck, F, 'C05')
+    # what a substitution answers for a parameter stays what it was when other parameters are bound
+    import c16 as _c16
+    _c16.latest_binding_rule(ck, F, 'C05')
 
     # a node that is shared by everyone who asks for the same thing is handed out read-only
     const_handles(ck, F, 'C05')
